@@ -211,7 +211,7 @@ func init() {
 		fe := u.ctx.Fun("strconv.ParseFloat#err", []string{SStr, SInt}, SInt)
 		v := app(fv, fs, s, bits)
 		e := app(fe, SInt, s, bits)
-		u.ctx.Assert(Cmp(">=", e, TZero), "strconv.ParseFloat: error value")
+		u.ctx.Assert(And(Cmp(">=", e, TZero), Implies(Eq(s, u.ctx.StrLit("")), Neq(e, TNil))), "strconv.ParseFloat: error value; empty string is a syntax error")
 		if fs == SF {
 			// on error the value is 0 (syntax) or +-Inf (range); on success it can be any float incl. NaN/Inf
 			u.ctx.Assert(Implies(Neq(e, TNil), Or(Eq(v, Term{"(fin 0.0)", SF}), Eq(v, Term{"pinf", SF}), Eq(v, Term{"ninf", SF}))), "strconv.ParseFloat: value on error")
@@ -247,7 +247,26 @@ func init() {
 	freshStr := func(u *Unit, fr *frame, st *State, c *ssa.Function, a []Value, rt types.Type, pos token.Pos) Value {
 		return Sc{u.ctx.Fresh("str", SStr), types.Typ[types.String]}
 	}
-	externals["fmt.Sprintf"] = freshStr
+	externals["fmt.Sprintf"] = func(u *Unit, fr *frame, st *State, c *ssa.Function, a []Value, rt types.Type, pos token.Pos) Value {
+		// deterministic uninterpreted function of the format and the (boxed) arguments when their number is known
+		if len(a) == 2 {
+			if sl, ok := a[1].(SliceV); ok {
+				if n, isLit := smallLit(sl.Len); isLit && n <= 8 && sl.Off.S == "0" {
+					anyT := types.NewInterfaceType(nil, nil)
+					arr := u.heapGet(st, cellFam(anyT), ArrSort(SInt, SInt))
+					sorts := []string{SStr}
+					ts := []Term{u.asSc(a[0], nil).T}
+					for i := int64(0); i < n; i++ {
+						sorts = append(sorts, SInt)
+						ts = append(ts, Select(arr, u.elemAddr(sl.Arr, IntLit(i))))
+					}
+					f := u.ctx.Fun(fmt.Sprintf("fmt.Sprintf#%d", n), sorts, SStr)
+					return Sc{app(f, SStr, ts...), types.Typ[types.String]}
+				}
+			}
+		}
+		return Sc{u.ctx.Fresh("str", SStr), types.Typ[types.String]}
+	}
 	externals["fmt.Sprint"] = freshStr
 	externals["fmt.Sprintln"] = freshStr
 	externals["strings.Join"] = freshStr
@@ -427,6 +446,8 @@ func (u *Unit) parseIntModel(s, base, bits Term, unsigned bool, rt types.Type) V
 			Implies(And(Eq(UE, TNil), Cmp(">", U, maxI)), Neq(IE, TNil)),
 			Implies(And(Eq(IE, TNil), Cmp(">=", I, TZero), Not(hs)), And(Eq(UE, TNil), Eq(U, I))),
 			Implies(Eq(UE, TNil), Not(hs)),
+			// the empty string is a syntax error for both parsers
+			Implies(Eq(s, u.ctx.StrLit("")), And(Neq(IE, TNil), Neq(UE, TNil))),
 		), "strconv integer parser relations (assumed)")
 	}
 	u.note("external strconv.ParseInt/ParseUint/Atoi: deterministic functions of (string, base, bitSize) related by the documented signed/unsigned agreement (assumed)")
